@@ -5,7 +5,7 @@ SPEC_FLAT = True   # the specification expectation is compared with the flattene
 RULE = ("E <method> <arg>: one Encoder method call on the real crate vs the extracted Coq model (chunk by chunk) and vs the reference "
         "encoder enc_pref of Spec/Cbor.v. Exhaustive: all u8, i8, u16, i16 arguments and all 256 simple values; boundary-dense "
         "(every 2^k+-3) plus seeded random arguments for the 32/64-bit methods, Int, char, tag/array/map heads; byte/text strings of "
-        "lengths 0,1,23,24,255,256,65535,65536 and random. EIT: ArrayIter/MapIter over iterators with exact, unbounded, lower-bound-only and upper-bound-only size hints. ES: random forests (depth <= 3, definite and indefinite containers, chunked strings, tags) rendered as balanced Encoder call sequences, expectation = the generator's own reference serialiser. A case is non-trivial when the argument needs more than the initial byte "
+        "lengths 0,1,23,24,255,256,65535,65536 and random. EBLK: FNV-1a hashes over the outputs of one method on a block of consecutive arguments (quick: 2^16-blocks around every width boundary; thorough: all 2^32 u32 arguments and 2^28 stratified i32 / f32 arguments). EIT: ArrayIter/MapIter over iterators with exact, unbounded, lower-bound-only and upper-bound-only size hints. ES: random forests (depth <= 3, definite and indefinite containers, chunked strings, tags) rendered as balanced Encoder call sequences, expectation = the generator's own reference serialiser. A case is non-trivial when the argument needs more than the initial byte "
         "(argument >= 24 or a payload is present); distinct = distinct case lines.")
 ASSUMPTIONS = ["the chunk-recording sink sees exactly the bytes any other sink would (C13 covers the sinks)",
                "f16 conversion results are covered by C12; here only the framing of Encoder::f16 is compared with the model"]
@@ -80,15 +80,30 @@ def generate(tier, rng):
                 exact = hint == "exact" or (hint == "filter" and cnt == 0)   # filter over nothing reports (0, Some(0))
                 exp = (head(4 if kind == "arr" else 5, cnt) + body) if exact else (bytes([0x9f if kind == "arr" else 0xbf]) + body + b"\xff")
                 out.append("EIT %s %s %s =%s" % (kind, hint, ",".join(map(str, vs)) or ".", hexs(exp)))
+    # hashed block sweeps (thorough: all 2^32 u32 arguments; 2^28 stratified i32 / f32; quick: the blocks around every width boundary)
+    blocks = []
+    if big:
+        blocks += [("u32", b << 22, 1 << 22) for b in range(1 << 10)]
+        blocks += [("i32", -(1 << 31) + (b << 26), 1 << 22) for b in range(64)] + [("f32", (b << 26) + (b << 3), 1 << 22) for b in range(64)]
+    else:
+        blocks += [("u32", s, 1 << 16) for s in (0, (1 << 16) - (1 << 15), (1 << 24), (1 << 32) - (1 << 16))]
+        blocks += [("i32", s, 1 << 16) for s in (-(1 << 31), -(1 << 16) - (1 << 15), -(1 << 15), (1 << 31) - (1 << 16))]
+        blocks += [("u64lo", (1 << 32) - (1 << 15), 1 << 16), ("i64lo", -(1 << 32) - (1 << 15), 1 << 16), ("f32", 0x7f800000 - (1 << 15), 1 << 16)]
+    eblk = ["EBLK %s %d %d" % b for b in blocks]
     for _ in range(20000 if big else 3000):
         forest = [rtree(3) for _ in range(rng.randrange(1, 3))]
         out.append("ES %s =%s" % (";".join(c for t in forest for c in calls(t)), hexs(b"".join(ser_tree(t) for t in forest))))
+    # spread the (heavy) block cases evenly so that the 16 shards are balanced
+    step = max(1, len(out) // (len(eblk) + 1))
+    for i, b in enumerate(eblk):
+        out.insert(min(len(out), (i + 1) * step + i), b)
     return out
 
 def nontrivial(line, impl):
     t = line.split()
     if t[0] == "ES": return t[1].count(";") >= 2
     if t[0] == "EIT": return t[3] != "."
+    if t[0] == "EBLK": return True
     if len(t) < 3: return False
     if t[1] in ("bytes", "str"): return t[2] != "-"
     try: v = int(t[2])
@@ -99,4 +114,5 @@ def classify(line, impl):
     t = line.split()
     if t[0] == "ES": return "ES:%d" % min(9, t[1].count(";") + 1)
     if t[0] == "EIT": return "EIT:" + t[1] + ":" + t[2]
+    if t[0] == "EBLK": return "EBLK:" + t[1]
     return t[1] + ("/err" if impl.startswith("err") else "")
